@@ -4,6 +4,7 @@ import (
 	"fmt"
 	"go/token"
 	"go/types"
+	"regexp"
 	"sort"
 	"strings"
 
@@ -316,45 +317,68 @@ func runC18(c *Ctx) {
 	// ---------------- P1
 	goid := c.Method(pDT, "Transformer", "getObjectID")
 	if goid == nil {
+		goid = c.Fn(pDT, "getObjectID")
+	}
+	if goid == nil {
 		c.Unresolved("C18.P1", "getObjectID")
 	} else {
-		paths, err := c.DecisionPaths(goid, nil)
-		var rets []string
-		if err == nil {
-			for _, p := range paths {
-				for _, cd := range p.Conds {
-					rets = append(rets, fmt.Sprintf("[%s %v] -> %s", cd.L, cd.Truth, p.Ret[0]))
-				}
+		// two exits: "#"+object under the @base flag, document+"#"+object otherwise; the flag is the transformer's
+		// includeBase, read in the helper or handed to it by every caller
+		okG := false
+		detail := ""
+		var under, other *ssa.Return
+		relRe := regexp.MustCompile(`^"#" \+\+ (\$\d)$`)
+		absRe := regexp.MustCompile(`^(\$\d) \+\+ "#" \+\+ (\$\d)$`)
+		obj := ""
+		for _, r := range returnsOf(goid) {
+			cf := c.concatForm(r.Results[0], nil)
+			if m := relRe.FindStringSubmatch(cf); m != nil {
+				under, obj = r, m[1]
 			}
 		}
-		sort.Strings(rets)
-		want := []string{`[$0.includeBase false] -> ($1 + ("#" + $2))`, `[$0.includeBase true] -> ("#" + $2)`}
-		// the generic enumerator only handles comparison branches; fall back to a direct shape check
-		okG := false
-		var under, other *ssa.Return
 		for _, r := range returnsOf(goid) {
-			switch c.concatForm(r.Results[0], nil) {
-			case `"#" ++ $2`:
-				under = r
-			case `$1 ++ "#" ++ $2`:
+			if m := absRe.FindStringSubmatch(c.concatForm(r.Results[0], nil)); m != nil && m[2] == obj && m[1] != obj {
 				other = r
 			}
 		}
 		if under != nil && other != nil && len(returnsOf(goid)) == 2 {
-			// the relative form is returned exactly on the includeBase edge
+			flag := ""
 			for _, cnd := range c.condsOf(under.Block()) {
-				if cnd == "$0.includeBase=true" {
-					okG = true
+				if strings.HasSuffix(cnd, "=true") {
+					flag = strings.TrimSuffix(cnd, "=true")
 				}
 			}
+			okG = flag != ""
 			for _, cnd := range c.condsOf(other.Block()) {
-				if cnd == "$0.includeBase=true" {
+				if cnd == flag+"=true" {
 					okG = false
 				}
 			}
+			detail = "flag " + flag
+			switch {
+			case !okG:
+			case strings.HasSuffix(flag, ".includeBase"):
+			case regexp.MustCompile(`^\$\d$`).MatchString(flag):
+				// a boolean parameter: every caller passes the transformer's includeBase
+				k := int(flag[1] - '0')
+				n := 0
+				for _, f := range c.Funcs {
+					for _, cl := range callsTo(f, goid) {
+						n++
+						if k >= len(cl.Call.Args) || !strings.HasSuffix(c.Path(cl.Call.Args[k], nil), ".includeBase") {
+							okG = false
+							detail += "; " + short(f.String()) + " passes " + c.Path(cl.Call.Args[k], nil)
+						}
+					}
+				}
+				if n == 0 {
+					okG = false
+				}
+			default:
+				okG = false
+			}
 		}
-		_ = want
-		c.Check("C18.P1", "getObjectID", okG, goid.Pos(), fmt.Sprintf("getObjectID = '#'+id under @base, did+'#'+id otherwise (%v)", rets))
+		c.Check("C18.P1", "getObjectID", okG, goid.Pos(), fmt.Sprintf("getObjectID = '#'+id under @base, did+'#'+id otherwise (%s)", detail))
 	}
 	if pk != nil {
 		c.mapLiteralRule("C18.P1", "verification-method", pk, "document.PublicKey", map[string]func(string) bool{
